@@ -152,7 +152,13 @@ class Explorer(object):
                 raise Undecided("tracked quantity passed to unmodelled call %s" % norm(e))
             return TOP
         if isinstance(e, ast.IfExp):
-            return TOP
+            # decided when the test is definitive on the cell; otherwise the common value of both arms, else unknown
+            outs = self.branch(e.test, env)
+            vals = {b for (_e, b, lab) in outs}
+            if len(vals) == 1 and all(lab is None for (_e, b, lab) in outs):
+                return self.ev(e.body if vals.pop() else e.orelse, env)
+            a, b = self.ev(e.body, env), self.ev(e.orelse, env)
+            return a if a == b else TOP
         v = self.folder.fold(e, self.fi.module, cls=self.fi.cls)
         return lift(v)
 
@@ -199,6 +205,14 @@ class Explorer(object):
                     return Iv(0, min(a.hi, b.hi))
                 return TOP
             if isinstance(op, ast.BitOr) and a.lo >= 0 and b.lo >= 0:
+                # x | c with every bit of the constant c above the range of x is x + c  (x | 0 is x)
+                for (x, c) in ((a, b), (b, a)):
+                    if c.is_const() and c.lo != INF and x.hi != INF:
+                        cv = int(c.lo)
+                        if cv == 0:
+                            return x
+                        if int(x.hi) < (cv & -cv):
+                            return Iv(x.lo + cv, x.hi + cv)
                 return Iv(max(a.lo, b.lo), INF if INF in (a.hi, b.hi) else (1 << max(int(a.hi).bit_length(), int(b.hi).bit_length())) - 1)
             if isinstance(op, ast.FloorDiv) and b.is_const() and b.lo not in (0, INF, -INF) and b.lo > 0:
                 return Iv(a.lo // b.lo if abs(a.lo) != INF else a.lo, a.hi // b.lo if abs(a.hi) != INF else a.hi)
